@@ -153,7 +153,12 @@ func (m *MIME) cloneHierarchy(ps map[string]string) *MIME {
 }
 
 func (m *MIME) lookup(mime string) *MIME {
-	for _, n := range append(m.aliases, m.mime) {
+	// Do not append to m.aliases: the slice may be the caller's (Extend) and
+	// have spare capacity, and lookup only holds the read lock.
+	if m.mime == mime {
+		return m
+	}
+	for _, n := range m.aliases {
 		if n == mime {
 			return m
 		}
